@@ -1,7 +1,7 @@
 (* Properties_C11.v -- any pattern string is safely rejected or compiled; matching stays in bounds.
    Statements only; proofs are in ReProps*.v. *)
 From Coq Require Import List NArith ZArith.
-From NV Require Import Bytes GenConsts ReSyntax ReParse ReEmit ReVM ReSem RsetDefs ReProps ReProps2 ReProps3 ReProps4 ReProps5 ReProps6 ReProps7 ReProps8 ReProps10 ReProps11 ReProps12 ReCountBound UcSpec ReBoundary.
+From NV Require Import Bytes GenConsts ReSyntax ReParse ReEmit ReVM ReSem RsetDefs ReProps ReProps2 ReProps3 ReProps4 ReProps5 ReProps6 ReProps7 ReProps8 ReProps10 ReProps11 ReProps12 ReZlen ReCountBound UcSpec ReBoundary.
 Import ListNotations.
 
 (* for EVERY byte string: if regcomp accepts it, the emitted program (MARK 0, code, MARK 1, MATCH)
@@ -116,6 +116,12 @@ Theorem C11_count_no_int_overflow : forall f s t s', rnode_parse f s = Ok (Some 
   Forall (fun v => (- 2^31 <= v < 2^31)%Z) (count_vals t) /\ (0 <= count t <= NINST)%Z.
 Proof. intros f s t s' H. split; [exact (parse_count_vals_int f s t s' H) | exact (parse_count_range f s t s' H)]. Qed.
 Print Assumptions C11_count_no_int_overflow.
+
+(* the emitted length the driver computes in Z for compile-only requests near NINST (ReEmit.zlen) is the emitted
+   length nlen of C11_emit_fits, for every tree the parser returns *)
+Theorem C11_zlen_is_nlen : forall f s t s', rnode_parse f s = Ok (Some t, s') -> zlen t = Z.of_nat (nlen t).
+Proof. exact parse_zlen. Qed.
+Print Assumptions C11_zlen_is_nlen.
 
 Example C11_nonvacuous : exists p, regcomp [40; 97; 123; 50; 44; 51; 125; 41]%N = Ok (Some p).
 Proof. eexists. vm_compute. reflexivity. Qed.
